@@ -324,6 +324,43 @@ func TestC18Loader(t *testing.T) {
 		defer os.RemoveAll(root)
 		doc, ids := genValidDoc(t, base)
 		doc, verdict, mut := mutateDoc(t, doc, ids)
+		// size is not part of well-formedness: comments of any length anywhere in the document change nothing
+		pad := rapid.SampledFrom([]string{"", "", "", "", "comment-before", "comment-after", "comment-before-params", "comments-everywhere"}).Draw(t, "padding")
+		if mut == "empty-document" || mut == "only-comment" || mut == "multi-document" {
+			pad = ""
+		}
+		padLen := rapid.SampledFrom([]int{4000, 65000, 65536, 70000, 300000}).Draw(t, "padlen")
+		comment := func(n int) string {
+			var b strings.Builder
+			for b.Len() < n {
+				b.WriteString("# " + strings.Repeat("-", 98) + "\n")
+			}
+			return b.String()
+		}
+		switch pad {
+		case "comment-before":
+			doc.prefix = comment(padLen) + doc.prefix
+		case "comment-after":
+			doc.suffix += comment(padLen)
+		case "comment-before-params":
+			if doc.extraTop == "" {
+				doc.extraTop = strings.TrimSuffix(comment(padLen), "\n")
+			} else {
+				doc.prefix = comment(padLen) + doc.prefix
+			}
+		case "comments-everywhere":
+			doc.prefix = comment(padLen/3) + doc.prefix
+			doc.suffix += comment(padLen / 3)
+			if doc.extraTop == "" {
+				doc.extraTop = strings.TrimSuffix(comment(padLen/3), "\n")
+			}
+		}
+		if pad != "" {
+			vlib.Class("document-padded-with-comments")
+			if padLen > 65536 {
+				vlib.Class("document-over-64KiB")
+			}
+		}
 		text := doc.render()
 		cf := filepath.Join(root, "store.yaml")
 		os.WriteFile(cf, []byte(text), 0o600)
@@ -341,12 +378,15 @@ func TestC18Loader(t *testing.T) {
 		switch verdict {
 		case "valid":
 			if err != nil {
-				t.Fatalf("VIOLATION C18: well-formed configuration refused (%s): %v\n%s", mut, err, text)
+				t.Fatalf("VIOLATION C18: well-formed configuration refused (%s, %d bytes, padding %q): %v\n%s", mut, len(text), pad, err, vlib.Q(text))
 			}
 		case "invalid":
 			if err == nil {
 				t.Fatalf("VIOLATION C18: malformed configuration accepted (defect: %s)\n%s", mut, text)
 			}
+		}
+		if err == nil && mut == "none" && len(d.Params) != len(ids) {
+			t.Fatalf("VIOLATION C18: the loader accepted the well-formed document (%d bytes, padding %q) but knows %d of its %d parameter sets", len(text), pad, len(d.Params), len(ids))
 		}
 		if err == nil {
 			if msg := exerciseSets(d, root); msg != "" {
@@ -358,6 +398,11 @@ func TestC18Loader(t *testing.T) {
 		}
 		vlib.Class("doc:" + verdict)
 		vlib.Class("mutation:" + strings.SplitN(mut, ":", 2)[0])
-		vlib.Sample(map[string]any{"mutation": mut, "expected": verdict, "accepted": err == nil, "yaml": text})
+		vlib.Sample(map[string]any{"mutation": mut, "expected": verdict, "accepted": err == nil, "padding": pad, "bytes": len(text), "yaml": func() string {
+			if len(text) < 1500 {
+				return text
+			}
+			return vlib.Q(strings.TrimLeft(text[len(doc.prefix):], "\n"))
+		}()})
 	})
 }
